@@ -667,17 +667,16 @@ theorem kill_nothing_keeps_cursor (m : Movement) (hm : CharOrWord m) (lb l : LB)
 def KillCaveat (buf : Text) (pos : Nat) (m : Movement) : Prop :=
   spanOf S U buf pos m false = .nothing ∧ ¬ CharOrWord m ∧ buf ≠ [] ∧ m ≠ .wholeBuffer
 
-/-- **Kills** (every movement but `^`): `LineBuffer::kill` returns; what is left is the text without
+/-- **Kills** (every movement, `^` included since the repair of D46): `LineBuffer::kill` returns; what is left is the text without
     the declarative span and the cursor is at the span start; with nothing to kill the text is
     unchanged, and the cursor too for the character / word kills and in an empty buffer. -/
-theorem kill_refines (hS : S.Stable) (hnl : S.NlAlone) (mode : Mode) (lb : LB) (h : WF lb) (m : Movement)
-    (hm : m ≠ .viFirstPrint) :
+theorem kill_refines (hS : S.Stable) (hnl : S.NlAlone) (mode : Mode) (lb : LB) (h : WF lb) (m : Movement) :
     ∃ r l ns, LB.kill S U m lb = .ok (r, l, ns) ∧ WF l ∧
       ((Act.kill m).apply S U mode lb.buf lb.pos).holdsText l ∧
       ((¬ KillCaveat S U lb.buf lb.pos m ∨ l.pos = lb.pos) →
         ((Act.kill m).apply S U mode lb.buf lb.pos).holds l) := by
   obtain ⟨r, l, ns, hk, hw⟩ := C03_kill_total_wf S U m lb h
-  have hc := C04_kill_is_span_partial S U hS hnl lb l m r ns h hm hk
+  have hc := C04_kill_is_span S U hS hnl lb l m r ns h hk
   obtain ⟨h1, h2⟩ := holds_kill_of_check S U (mode := mode) hc
   refine ⟨r, l, ns, hk, hw, h1, fun hor => ?_⟩
   by_cases hsp : spanOf S U lb.buf lb.pos m false = .nothing
@@ -728,8 +727,42 @@ variable (cfg : EdCfg)
 def Refined (a : Act) (mode : Mode) (s : Ed) : Status → Ed → Prop :=
   fun st s' => st = .proceed ∧ (a.apply S U mode s.line.buf s.line.pos).holds s'.line
 
+/-- the documented target of `^` (a line with a non-blank character) is the declarative `firstPrintTarget` -/
+theorem firstPrintOf_some {buf : Text} {pos t : Nat} (h : firstPrintOf S U buf pos = some t) :
+    firstPrintTarget S U buf pos = some t := by
+  unfold firstPrintOf at h
+  unfold firstPrintTarget
+  simp only at h ⊢
+  cases hsp : splitAt? buf (lineStartOf buf pos) with
+  | none => rw [hsp] at h; cases h
+  | some xr =>
+    obtain ⟨x, rest⟩ := xr
+    rw [hsp] at h
+    simp only at h ⊢
+    split at h
+    · cases h
+    · exact h
+
+/-- vi `^` (D46): `move_to_first_print` refines the documented motion -/
+theorem moveToFirstPrint_refines (mode : Mode) (lb : LB) (h : WF lb) :
+    ∃ r l, LB.moveToFirstPrint S U lb = .ok (r, l, []) ∧
+      ((Act.move .viFirstPrint).apply S U mode lb.buf lb.pos).holds l := by
+  obtain ⟨r, l, h1, _, h3⟩ := C03_moveToFirstPrint_total_wf S U lb h
+  refine ⟨r, l, h1, holds_move_cases S U h3 fun tg htg => ?_⟩
+  obtain ⟨ht, _, _⟩ := moveToFirstPrint_target S U lb l r [] h h1
+  simp only [moveTarget] at htg
+  cases hfo : firstPrintOf S U lb.buf lb.pos with
+  | none => rw [hfo] at htg; cases htg
+  | some t =>
+    rw [hfo] at htg
+    cases htg
+    have := firstPrintOf_some S U hfo
+    rw [ht] at this
+    cases this
+    rfl
+
 theorem execute_move_refines (hS : S.Stable) (mode : Mode) (m : Movement) (s : Ed) (hwf : WF s.line)
-    (hm : m ≠ .viFirstPrint) (hbe : ∀ n w, m ≠ .forwardWord n .beforeEnd w) :
+    (hbe : ∀ n w, m ≠ .forwardWord n .beforeEnd w) :
     wp (execute S U cfg (.move m)) (Refined S U (.move m) mode s) (fun _ _ => False) s := by
   obtain ⟨h1, h2, h3, h4, h5, h6, h7, h8, h9, h10, h11⟩ := moveOp_refines S U hS mode s.line hwf s.layoutPromptCol
   have fin : ∀ {op : LM Bool} {m' : Movement},
@@ -739,7 +772,7 @@ theorem execute_move_refines (hS : S.Stable) (mode : Mode) (m : Movement) (s : E
     simp only [wp_bind, wp_pure]
     exact wp_editMove_line S U cfg ho fun s' hl => ⟨rfl, hl ▸ hh⟩
   cases m
-  case viFirstPrint => exact absurd rfl hm
+  case viFirstPrint => exact fin (moveToFirstPrint_refines S U mode s.line hwf)
   case wholeLine =>
     show wp (pure Status.proceed) _ _ s
     exact ⟨rfl, by simp [Act.apply, moveTarget, Want.holds]⟩
@@ -773,18 +806,18 @@ def RefinedKill (a : Act) (mode : Mode) (m : Movement) (s : Ed) : Status → Ed 
       (a.apply S U mode s.line.buf s.line.pos).holds s'.line)
 
 theorem execute_kill_refines (hS : S.Stable) (hnl : S.NlAlone) (hnp : cfg.hinterPanicAt = none) (mode : Mode)
-    (m : Movement) (s : Ed) (hwf : WF s.line) (hr : RingOK s.ring) (hm : m ≠ .viFirstPrint) :
+    (m : Movement) (s : Ed) (hwf : WF s.line) (hr : RingOK s.ring) :
     wp (execute S U cfg (.kill m)) (RefinedKill S U (.kill m) mode m s) (fun _ _ => False) s := by
-  obtain ⟨r, l, ns, hk, _, h1, h2⟩ := kill_refines S U hS hnl mode s.line hwf m hm
+  obtain ⟨r, l, ns, hk, _, h1, h2⟩ := kill_refines S U hS hnl mode s.line hwf m
   show wp (do editKill S U cfg m; pure Status.proceed : EM Status) _ _ s
   simp only [wp_bind, wp_pure]
   exact wp_editKill_line S U cfg m hnp hr hk fun s' hl => ⟨rfl, hl ▸ h1, hl ▸ h2⟩
 
 /-- **Change** (`Replace(m, None)`: vi `c`+motion, `s`, `S`, `C`): the same removal as the kill -/
 theorem execute_change_refines (hS : S.Stable) (hnl : S.NlAlone) (hnp : cfg.hinterPanicAt = none) (mode : Mode)
-    (m : Movement) (s : Ed) (hwf : WF s.line) (hr : RingOK s.ring) (hm : m ≠ .viFirstPrint) :
+    (m : Movement) (s : Ed) (hwf : WF s.line) (hr : RingOK s.ring) :
     wp (execute S U cfg (.replace m none)) (RefinedKill S U (.change m) mode m s) (fun _ _ => False) s := by
-  obtain ⟨r, l, ns, hk, _, h1, h2⟩ := kill_refines S U hS hnl mode s.line hwf m hm
+  obtain ⟨r, l, ns, hk, _, h1, h2⟩ := kill_refines S U hS hnl mode s.line hwf m
   obtain ⟨e1, e2⟩ := holds_change_iff S U mode s.line.buf s.line.pos m l
   show wp (do
       editKill S U cfg m
@@ -860,9 +893,9 @@ theorem execute_insert_refines (hnp : cfg.hinterPanicAt = none) (mode : Mode) (n
 
 /-! ### the summary over `Act` -/
 
-/-- the movements whose motion target is proved (all but `^` and the `BeforeEnd` word targets: the
-    known findings F-C04-vi-first-print / F-C04-vi-e-count) -/
-def MoveCovered (m : Movement) : Prop := m ≠ .viFirstPrint ∧ ∀ n w, m ≠ .forwardWord n .beforeEnd w
+/-- the movements whose motion target is proved (all but the `BeforeEnd` word targets: the known finding
+    F-C04-vi-e-count; `^` is covered since the repair of D46) -/
+def MoveCovered (m : Movement) : Prop := ∀ n w, m ≠ .forwardWord n .beforeEnd w
 
 /-- the resolved actions for which `execute` is proved to refine `Act.apply` here.  Not covered:
     case changes, transpose-chars and vi `r` (their declarative results `editWordWant`,
@@ -871,7 +904,7 @@ def MoveCovered (m : Movement) : Prop := m ≠ .viFirstPrint ∧ ∀ n w, m ≠ 
 def Covered : Act → Prop
   | .insert _ _ | .nothing | .toCommand | .toInsert none | .yankOnly _ => True
   | .move m | .toInsert (some m) => MoveCovered m
-  | .kill m | .change m => m ≠ .viFirstPrint
+  | .kill _ | .change _ => True
   | _ => False
 
 /-- the one place where the cursor claim is conditional: a kill / change with nothing to kill -/
@@ -919,17 +952,17 @@ theorem execute_refines (hS : S.Stable) (hnl : S.NlAlone) (hnp : cfg.hinterPanic
     exact wp_mono (execute_insert_refines S U cfg hnp mode n ch s hwf hg) (fun _ _ h => refinedAct_of_refined S U h) (fun _ _ h => h)
   | move m =>
     cases hc
-    exact wp_mono (execute_move_refines S U cfg hS mode m s hwf hcov.1 hcov.2) (fun _ _ h => refinedAct_of_refined S U h) (fun _ _ h => h)
+    exact wp_mono (execute_move_refines S U cfg hS mode m s hwf hcov) (fun _ _ h => refinedAct_of_refined S U h) (fun _ _ h => h)
   | kill m =>
     cases hc
-    refine wp_mono (execute_kill_refines S U cfg hS hnl hnp mode m s hwf hr hcov) (fun _ s' h => ?_) (fun _ _ h => h)
+    refine wp_mono (execute_kill_refines S U cfg hS hnl hnp mode m s hwf hr) (fun _ s' h => ?_) (fun _ _ h => h)
     refine ⟨h.1, h.2.1, fun hor => h.2.2 ?_⟩
     rcases hor with hn | hp
     · exact .inl hn
     · exact .inr hp
   | change m =>
     cases hc
-    refine wp_mono (execute_change_refines S U cfg hS hnl hnp mode m s hwf hr hcov) (fun _ s' h => ?_) (fun _ _ h => h)
+    refine wp_mono (execute_change_refines S U cfg hS hnl hnp mode m s hwf hr) (fun _ s' h => ?_) (fun _ _ h => h)
     refine ⟨h.1, h.2.1, fun hor => h.2.2 ?_⟩
     rcases hor with hn | hp
     · exact .inl hn
@@ -946,12 +979,12 @@ theorem execute_refines (hS : S.Stable) (hnl : S.NlAlone) (hnp : cfg.hinterPanic
       exact ⟨rfl, by simp [Act.apply, Want.holdsText], fun _ => by simp [Act.apply, Want.holds]⟩
     | some m =>
       cases hc
-      refine wp_mono (execute_move_refines S U cfg hS mode m s hwf hcov.1 hcov.2) (fun _ s' h => ?_) (fun _ _ h => h)
+      refine wp_mono (execute_move_refines S U cfg hS mode m s hwf hcov) (fun _ s' h => ?_) (fun _ _ h => h)
       have hh := (holds_toInsert_iff S U mode s.line.buf s.line.pos m s'.line).mpr h.2
       exact ⟨h.1, hh.1, fun _ => hh⟩
   | toCommand =>
     cases hc
-    refine wp_mono (execute_move_refines S U cfg hS mode (.backwardChar 1) s hwf (by simp) (by simp)) (fun _ s' h => ?_) (fun _ _ h => h)
+    refine wp_mono (execute_move_refines S U cfg hS mode (.backwardChar 1) s hwf (by simp)) (fun _ s' h => ?_) (fun _ _ h => h)
     have hh := holds_toCommand_of_move S U mode s.line.buf s.line.pos s'.line h.2
     exact ⟨h.1, hh.1, fun _ => hh⟩
   | nothing =>
